@@ -158,7 +158,7 @@ func (c *Conn) Read(p []byte) (int, error) {
 			}
 			n := copy(p, h.buf)
 			if h.cutAtRead >= 0 && h.read+int64(n) > h.cutAtRead {
-				n = int(h.cutAtRead - h.read)
+				n = max(0, int(h.cutAtRead-h.read))
 			}
 			if n == 0 { // cut point reached exactly
 				h.reset = true
@@ -234,7 +234,7 @@ func (c *Conn) Write(p []byte) (int, error) {
 			if h.cutAtWritten >= 0 && h.written+int64(n) >= h.cutAtWritten {
 				// deliver the bytes before the cut point, then kill the link: the peer can
 				// drain what arrived and then sees EOF; this end fails from now on.
-				n = int(h.cutAtWritten - h.written)
+				n = max(0, int(h.cutAtWritten-h.written))
 				h.buf = append(h.buf, p[:n]...)
 				h.written += int64(n)
 				total += n
